@@ -726,7 +726,7 @@ Proof.
   - cbn in H. destruct acc as [o z]. cbn in *. inversion H; subst. congruence.
   - cbn in H. destruct (Nat.eqb d' e) eqn:E.
     + eapply IH; eauto.
-    + destruct (l' <? snd acc); eapply IH; eauto. cbn. apply Nat.eqb_neq in E. congruence.
+    + destruct (negb (is_some (fst acc)) || (l' <? snd acc)); eapply IH; eauto. cbn. apply Nat.eqb_neq in E. congruence.
 Qed.
 
 Lemma C15_get_min_excluded_proof : forall a e d l, get_min a (Some e) = (Some d, l) -> d <> e.
